@@ -2,7 +2,7 @@
 import itertools
 from fractions import Fraction as F
 
-from .. import gen as G, impl as I, oracle as O, util as U
+from .. import gen as G, impl as I, oracle as O, util as U, opcases as OC
 from ..core import Fail
 
 PID = "C19"
@@ -10,7 +10,7 @@ RULE = ("valid member lists: one outer polygon with 1-3 holes (ConnectedShape of
         "of the holes), 2-4 pairwise disjoint components some with holes (DisjointShape), unbounded members, Empty "
         "entries, single-member and empty lists; float components whose areas do not add up exactly (== and float(S) across orders); ALL permutations of lists with <= 4 members; compared with the "
         "operator results (outer - hole1 - hole2, c1 | c2 | c3): kind, curves, area, moments of order <= 2, containment "
-        "on slab samples, complement; non-trivial = at least 2 members; distinct = SHA-1")
+        "on slab samples, complement (representation and membership against the oracle); non-trivial = at least 2 members; distinct = SHA-1")
 PROOF_STATUS = ("Props/C19.v: containment, region, area, moments are invariant under permutation of the list; the sort is a "
                 "permutation; canonical stored order for distinct keys; collapse rules")
 
@@ -29,6 +29,14 @@ def cases(ctx):
         d = G.disjoint_shape(rng, R=rng.choice([8, 14]), den=rng.choice([1, 2]), ncomp=rng.choice([2, 3, 3, 4]))
         if d[0] == "D":
             yield {"k": "disjoint", "comps": d[1], "empties": i % 3, "num": "frac"}
+    # NESTED components: a ring with further components (islands, rings with islands) inside its hole
+    for i in range(ctx.n(6, 100)):
+        a, b = OC.nested_env(rng)
+        if a[0] == "D":
+            a, b = b, a
+        comps = [a] + (list(b[1]) if b[0] == "D" else [b])
+        if all(c[0] in "SC" for c in comps):
+            yield {"k": "disjoint", "comps": comps, "empties": 0, "num": "frac", "nested": True}
     # float data whose component areas do not add up exactly (0.1 + 0.2 + 0.3): the stored order must be canonical
     for i in range(ctx.n(6, 100)):
         d = G.disjoint_shape(rng, R=rng.choice([8, 14]), den=1, ncomp=rng.choice([3, 3, 4]))
@@ -51,6 +59,7 @@ def _obs(S, pts):
     return {"data": I.shape_data(S), "area": I.num(I.IntegrateShape.area(S)),
             "moms": [I.num(I.IntegrateShape.polynomial(S, a, b)) for a, b in ((1, 0), (0, 1), (2, 0), (1, 1), (0, 2))],
             "mem": [bool(S.contains_point(p, True)) for p in pts],
+            "notmem": (lambda N: [bool(N.contains_point(p, True)) for p in pts])(~S),
             "not": I.shape_data(~S)}
 
 
@@ -156,6 +165,12 @@ def check(ctx, case):
         rr = O.region(model_shape, p)
         if rr in ("in", "out") and got != (rr == "in"):
             fails.append(Fail(kind="O", what="membership of the composite is not the intersection/union of its members", p=p))
+            break
+    # ... and its complement is the complement of that region
+    for p, got in zip(pts, ref["notmem"]):
+        rr = O.region(model_shape, p)
+        if rr in ("in", "out") and got != (rr == "out"):
+            fails.append(Fail(kind="O", what="the complement of the composite is not the complement of the union/intersection of its members", p=p))
             break
     if num == "float":
         return fails            # the exact model does not apply to float sums
